@@ -3,7 +3,8 @@ import json, C07
 def recovery_stage(ctx, V, exe, n):
     """`the daemon disconnects, reconnects and logs in again; actions still pending when the connection comes back are executed again from
     their first statement; once the device behaves, new requests succeed`: a tcp device that drops the connection ONCE, in the middle of a
-    telnet sequence (IAC / IAC DO..WONT as its last bytes), right after it received a command, and is healthy from the next connection on.
+    telnet sequence (IAC / IAC DO..WONT as its last bytes) or after a few bytes no script expects (a goodbye banner, a trailing prompt: they
+    stay unconsumed in the daemon's buffer), right after it received a command, and is healthy from the next connection on.
     The request must be re-sent on the new connection and succeed, and so must the next one (nothing of the dead connection - buffered
     bytes, telnet parser position, script position - may survive into the new session)."""
     import random, pmgen, pmcheck
@@ -14,7 +15,7 @@ def recovery_stage(ctx, V, exe, n):
         d0 = pmgen.Dev("d0", ["login", "on", "off", "status"], hardwired=["p1", "p2"], transport="tcp", timeout=rng.choice([4.0, 6.0]))
         cfg.devs.append(d0); cfg.node_lines.append(("n0,n1", "d0", "p1,p2")); cfg.truth = {"d0": {"p1": "n0", "p2": "n1"}}
         first = rng.choice([b"on n0\r\n", b"off n1\r\n", b"on n[0-1]\r\n", b"status n0\r\n"])
-        S = [("connect",), ("wait", 0), ("devmode", "d0", "iacclose"), ("send", 0, first), ("wait", 0), ("send", 0, b"status n[0-1]\r\n"), ("wait", 0)]
+        S = [("connect",), ("wait", 0), ("devmode", "d0", "iacclose" if i % 2 == 0 else "junkclose"), ("send", 0, first), ("wait", 0), ("send", 0, b"status n[0-1]\r\n"), ("wait", 0)]
         scs.append(pmcheck.Scenario(cfg, S, dict(style="c12-recovery", first=first.decode().strip())))
 
     def mon_recovery(sess, sc):
